@@ -23,6 +23,7 @@ func c03(c *q.Ctx) {
 	blockTx := q.Cond{Canon: "(0 < len(p1.Blockid))", Sense: true}
 
 	commitVersionChecks(c)
+	poolReadmission(c)
 	vo := c.Fn(xm + "(*XModel).verifyOutputs")
 	if vo != nil {
 		c.Guard(vo, q.Cond{Canon: "newmap<map[string]bool>[xmodel.makeRawKey(p1.TxOutputsExt[].Bucket,p1.TxOutputsExt[].Key)]", Sense: false}, q.ToSuccess(), q.Opt{})
